@@ -4,6 +4,7 @@ package swap
 
 import (
 	"context"
+	"encoding/hex"
 	"errors"
 	"os"
 	"path/filepath"
@@ -114,6 +115,7 @@ type vWorld struct {
 	lastSpendable, lastReceivable, lastBalance    uint64
 	spendableAsked, receivableAsked, balanceAsked bool
 	narrow                                        *SwapData // when set, height answers are pinned to this swap's start height
+	storeRef                                      *vStore
 }
 
 func newWorld() *vWorld {
@@ -143,7 +145,7 @@ func (l *vLightning) decode(payreq string) *vInvoice {
 	if inv, ok := l.w.invoices[payreq]; ok {
 		return inv
 	}
-	inv := &vInvoice{err: zzverif.Bool("decode.err"), hash: zzverif.Str("decode.hash"),
+	inv := &vInvoice{err: zzverif.Bool("decode.err"), hash: zzverif.HexStr("decode.hash", 32),
 		msat: zzverif.U64("decode.msat"), cltv: zzverif.I64("decode.cltv")}
 	l.w.invoices[payreq] = inv
 	return inv
@@ -365,8 +367,16 @@ func (w *vWallet) CreateCoopSpendingTransaction(p *OpeningParams, c *ClaimParams
 	return w.spend("coop")
 }
 func (w *vWallet) GetOutputScript(params *OpeningParams) ([]byte, error) {
-	if w.w.fault("outscript.err") {
-		return nil, errors.New("output script failed")
+	// contract of the real implementations (onchain.ParamsToTxScript): the only failure is a key or
+	// hash that is not hex
+	if _, err := hex.DecodeString(params.TakerPubkey); err != nil {
+		return nil, err
+	}
+	if _, err := hex.DecodeString(params.MakerPubkey); err != nil {
+		return nil, err
+	}
+	if _, err := hex.DecodeString(params.ClaimPaymentHash); err != nil {
+		return nil, err
 	}
 	return zzverif.Bytes("outscript", 34), nil
 }
@@ -488,6 +498,24 @@ type vStore struct {
 	recs map[string]*SwapStateMachine
 }
 
+// put stores a record (used by harness code that seeds the store directly).
+func (s *vStore) put(id string, r *SwapStateMachine) { s.recs[id] = r }
+
+// ids lists the stored ids in a deterministic order (byte order), so that native runs agree with the
+// symbolic exploration although Go randomises map iteration.
+func (s *vStore) ids() []string {
+	var out []string
+	for id := range s.recs {
+		out = append(out, id)
+	}
+	for i := 1; i < len(out); i++ {
+		for j := i; j > 0 && out[j] < out[j-1]; j-- {
+			out[j], out[j-1] = out[j-1], out[j]
+		}
+	}
+	return out
+}
+
 func (s *vStore) UpdateData(data *SwapStateMachine) error {
 	if s.w.fault("store.err") {
 		return errors.New("store failed")
@@ -505,8 +533,8 @@ func (s *vStore) GetData(id string) (*SwapStateMachine, error) {
 }
 func (s *vStore) ListAll() ([]*SwapStateMachine, error) {
 	var out []*SwapStateMachine
-	for _, r := range s.recs {
-		out = append(out, vSnapshot(r))
+	for _, id := range s.ids() {
+		out = append(out, vSnapshot(s.recs[id]))
 	}
 	return out, nil
 }
@@ -564,6 +592,17 @@ type vRates struct {
 
 var vCurWorld *vWorld
 
+// vExactPremium: entries about premium arithmetic (C12) execute the real PPM.Compute symbolically; all
+// other swap harnesses use vCheapCompute, which equals the real function on the stated domain
+// (amount <= 2^40 sat, |rate| <= 10^6 ppm: the 64-bit product cannot wrap) and keeps queries small.
+var vExactPremium bool
+
+func vCheapCompute(p *premium.PPM, amtSat uint64) int64 {
+	zzverif.Assume(amtSat <= 1<<40)
+	zzverif.Assume(p.Value() <= 1000000 && p.Value() >= -1000000)
+	return int64(amtSat) * p.Value() / 1000000
+}
+
 func vPremiumGetRate(p *premium.BBoltPremiumStore, peer string, asset premium.AssetType, operation premium.OperationType) (*premium.PremiumRate, error) {
 	r := vCurWorld.rates
 	if peer == "default" {
@@ -586,6 +625,9 @@ func vPremiumSetting(w *vWorld, peer string) *premium.Setting {
 	vCurWorld = w
 	if zzverif.Symbolic() {
 		zzverif.Override("(*github.com/elementsproject/peerswap/premium.BBoltPremiumStore).GetRate", vPremiumGetRate)
+		if !vExactPremium {
+			zzverif.Override("(*github.com/elementsproject/peerswap/premium.PPM).Compute", vCheapCompute)
+		}
 		return &premium.Setting{}
 	}
 	dir, err := os.MkdirTemp("", "zzverif-premium-")
@@ -620,7 +662,7 @@ func vPremiumSetting(w *vWorld, peer string) *premium.Setting {
 // ---------------------------------------------------------------------------------------
 
 const (
-	vLiquidAsset = "6f0279e9ed041c3d710a9f57d0c02928416460c4b722ae3457a11eec381c526d"
+	vLiquidAsset = "016f0279e9ed041c3d710a9f57d0c02928416460c4b722ae3457a11eec381c526d"
 	vBtcNetwork  = "mainnet"
 	vPeer        = "02aaaaaaaaaaaaaaaaaaaaaaaaaaaaaaaaaaaaaaaaaaaaaaaaaaaaaaaaaaaaaaaaaa"
 )
